@@ -121,6 +121,127 @@ def check_case(chk, case, path):
         chk.add_drift('%s: DB-API call sequence %r, model %r' % (what, got, want))
 
 
+def _handles(con):
+    return [('connection', lambda: con), ('cursor', lambda: con.cursor()), ('mkcurs', lambda: (lambda: con.cursor()))]
+
+
+def check_extra(chk, tmp):
+    """Property-level checks outside the small model's bounds, on real sqlite files read back through a FRESH
+    connection: (1) loads of 1000-2100 rows whose source fails far into the table (batch boundaries) - all or nothing;
+    (2) schema= naming a table that also exists unqualified (ATTACHed database) - only the named table changes;
+    (3) sequences of loads into one table with permuted / different headers - every row lands in its named columns."""
+    import petl as etl
+
+    def fresh(path, q):
+        c = sqlite3.connect(path)
+        try:
+            return list(c.execute(q))
+        finally:
+            c.close()
+    # (1) large loads
+    n_case = 0
+    for n in (1000, 1001, 2100):
+        for fail in (0, 1000, 1001, 1002, 2001, n + 1, n + 2):
+            if fail > n + 2:
+                continue
+            for hname in ('filename', 'connection', 'cursor', 'mkcurs'):
+                op = ('todb', 'appenddb')[n_case % 2]
+                n_case += 1
+                if (n_case % 3) and fail not in (1001, 1002):
+                    continue                      # rotate; the boundary failures on every handle
+                path = os.path.join(tmp, 'big.db')
+                prev = [7, 8, 7]
+                setup_db(path, prev)
+                src = ProbeTable(['v'], rows=[[v] for v in range(1, n + 1)], fail_at=(fail - 1) if fail else None)
+                con = None
+                try:
+                    if hname == 'filename':
+                        dbo = path
+                    else:
+                        con = sqlite3.connect(path)
+                        dbo = dict((k, f) for k, f in _handles(con))[hname]()
+                    try:
+                        getattr(etl, op)(src, dbo, 't')
+                        outcome = 'returned'
+                    except InjectedFailure:
+                        outcome = 'raised'
+                    except Exception as e:
+                        outcome = 'error %r' % (e,)
+                    durable = [r[0] for r in fresh(path, 'select v from t')]
+                finally:
+                    if con is not None:
+                        con.close()
+                final = (prev if op == 'appenddb' else []) + list(range(1, n + 1))
+                want_out, want = ('raised', prev) if fail else ('returned', final)
+                chk.count(('large-load', n, fail, hname, op))
+                chk.replayed += 1
+                if outcome != want_out or durable != want:
+                    chk.violation({'op': op, 'handle': hname, 'commit': True, 'kind': 'large-load'},
+                                  '%s handle=%s of %d rows, source failing at pull %d: call %s, a fresh connection sees %d rows %r..; spec: %s, %d rows'
+                                  % (op, hname, n, fail, outcome, len(durable), durable[:5], want_out, len(want)),
+                                  {'kind': 'large-load', 'n': n, 'fail': fail, 'handle': hname, 'op': op})
+    # (2) schema= with an unqualified namesake, (3) header permutations in sequence
+    for hname in ('connection', 'cursor', 'mkcurs'):
+        for op in ('todb', 'appenddb'):
+            pm, px = os.path.join(tmp, 'm.db'), os.path.join(tmp, 'x.db')
+            for f in (pm, px):
+                if os.path.exists(f):
+                    os.remove(f)
+            con = sqlite3.connect(pm)
+            try:
+                con.execute("attach database '%s' as aux" % px)
+                con.execute('create table main.t (a integer, b integer)')
+                con.execute('create table aux.t (a integer, b integer)')
+                con.execute('insert into main.t values (1, 1)')
+                con.execute('insert into aux.t values (2, 2)')
+                con.commit()
+                H = dict(_handles(con))
+                msg = None
+                try:
+                    getattr(etl, op)([['a', 'b'], [5, 6]], H[hname](), 't', schema='aux')
+                    getattr(etl, 'appenddb')([['b', 'a'], [7, 8]], H[hname](), 't', schema='aux')
+                    getattr(etl, 'appenddb')(etl.cut([['a', 'b'], [9, 10]], 'b', 'a'), H[hname](), 't', schema='aux')
+                    getattr(etl, 'appenddb')([['b', 'a'], [11, 12]], H[hname](), 't')
+                except Exception as e:
+                    msg = 'raised %r' % (e,)
+                main_rows, aux_rows = fresh(pm, 'select a, b from t'), fresh(px, 'select a, b from t')
+                back = [tuple(r) for r in etl.fromdb(con, 'select a, b from aux.t')][1:]
+            finally:
+                con.close()
+            want_aux = ([(2, 2)] if op == 'appenddb' else []) + [(5, 6), (8, 7), (9, 10)]
+            want_main = [(1, 1), (12, 11)]
+            chk.count(('schema', hname, op))
+            chk.replayed += 1
+            if msg is None and (main_rows != want_main or aux_rows != want_aux or back != want_aux):
+                msg = 'main.t holds %r (spec %r), aux.t holds %r / fromdb %r (spec %r)' % (main_rows, want_main, aux_rows, back, want_aux)
+            if msg:
+                chk.violation({'op': op, 'handle': hname, 'commit': True, 'kind': 'schema-sequence'},
+                              "%s(.., 't', schema='aux') with a namesake main.t, then appenddb with headers (b, a), cut(b, a) and an unqualified load, handle=%s: %s"
+                              % (op, hname, msg), {'kind': 'schema-sequence', 'handle': hname, 'op': op})
+    # file-name handle: permuted headers in sequence
+    path = os.path.join(tmp, 'seq.db')
+    if os.path.exists(path):
+        os.remove(path)
+    c = sqlite3.connect(path)
+    c.execute('create table t (a integer, b integer, c integer)')
+    c.commit()
+    c.close()
+    loads = [(['a', 'b', 'c'], [1, 2, 3]), (['c', 'a', 'b'], [6, 4, 5]), (['b', 'c', 'a'], [8, 9, 7]), (['a', 'b', 'c'], [10, 11, 12])]
+    msg = None
+    try:
+        for hdr, row in loads:
+            etl.appenddb([hdr, row], path, 't')
+    except Exception as e:
+        msg = 'raised %r' % (e,)
+    got = fresh(path, 'select a, b, c from t')
+    chk.count(('sequence', 'filename'))
+    chk.replayed += 1
+    if msg or got != [(1, 2, 3), (4, 5, 6), (7, 8, 9), (10, 11, 12)]:
+        chk.violation({'op': 'appenddb', 'handle': 'filename', 'commit': True, 'kind': 'schema-sequence'},
+                      'appenddb of one-row tables with headers (a,b,c), (c,a,b), (b,c,a), (a,b,c) into one table: %s' % (msg or 'table holds %r' % (got,)),
+                      {'kind': 'schema-sequence', 'handle': 'filename', 'op': 'appenddb'})
+
+
 def to_trace(case, outcome, events):
     evs = [{'ev': 'pull_header', 'durable': case['prev']}] if case['failAt'] != 1 else []
     evs += events
@@ -213,6 +334,7 @@ def run(tier, seed):
             chk.count(('load', ci))
             chk.replayed += 1
         chk.sample({'kind': 'load-behaviour', 'case': cases[len(cases) // 2]})
+        check_extra(chk, tmp)
         traces = record_traces(2000 if full else 300, seed, path)
         validate_traces(chk, traces, seed)
     chk.exhaustive = True
